@@ -271,3 +271,12 @@ PROPS["C02"] = dict(
     note="Not decided: linear-time complexity, allocation failure, termination of the lexers' own loops (value-level: each lex call "
          "consumes a character), absence of left recursion (needs token-kind correlation; listed as informational), and the "
          "indexing/unwrap panic surface of the parser (about 60 sites over token arrays, not audited in this round).")
+
+PROPS["C12"] = dict(
+    module="c12", func="run", level="other", crates=["emmylua_code_analysis"],
+    technique="call-graph SCC classification (name-lookup carriers vs guard operations) + opt-in clippy lints enforced on the library target",
+    text="Decides two crash clauses for the analysis crate: every recursive component that follows type names through the index "
+         "(the only recursion carrier that can be cyclic at run time) contains a recursion guard or is audited as purely "
+         "structural; and the crate's own panic lints (unwrap/panic) hold for all library code (nothing else ever runs clippy).",
+    note="Guard presence is per component, not per cycle. Indexing/expect sites, arithmetic panics and the time bound of guarded "
+         "fixpoints are not decided. Trusted: clippy, the guard and carrier tables in rules/c12.py.")
